@@ -70,7 +70,7 @@ def make_case(rng, name, order=None, force=None):
     shape = rng.sample([5, 6, 7, 8, 9, 10, 12], 3)
     if name in ('RandomSizedBBoxSafeCrop', 'BBoxSafeRandomCrop', 'RandomCropNearBBox'):
         shape = [max(s, 8) for s in shape]
-    return {'name': name, 'kw': kw, 'dtype': dtype, 'shape': shape, 'seed': rng.randint(0, 10 ** 6),
+    return {'name': name, 'kw': kw, 'dtype': dtype, 'shape': shape, 'seed': R.pick_seed(rng),
             'image_dtype': rng.choice(['uint8', 'float32', 'int16'])}
 
 
@@ -125,7 +125,7 @@ def check(case, viol):
         data[key] = (1, 1, 1, W - 2, H - 2, D - 2)
     try:
         pipe = A.Compose([getattr(A, name)(p=1.0, **kw)], **ckw)
-        random.seed(case['seed'])
+        R.seed(case['seed'])
         np.random.seed(case['seed'] % 1000)
         res = pipe(**data)
     except Exception:  # noqa -- whether a configuration runs at all is C08's question
